@@ -218,9 +218,10 @@ def cases(tier, seed):
     for _ in range(ntwo):
         i += 1
         k = rngt.randint(2, 6)
-        texts = [rngt.choice(["shared text", "a", "b b", "q%d" % rngt.randint(0, 3)]) for _ in range(k)]
+        texts = [rngt.choice(["shared text", "a", "b b", "q%d" % rngt.randint(0, 3), "B:x", "x", ":x", "mA:x"]) for _ in range(k)]
         yield {"id": i, "fam": "twoidx", "mode": "twoidx", "cache": rngt.choice(CACHES), "nidx": rngt.choice([2, 2, 3]), "texts": texts,
-               "batching": rngt.random() < 0.5, "shuffle": rngt.random() < 0.5, "share_dir": rngt.random() < 0.5, "seed": rngt.randrange(1 << 30)}
+               "batching": rngt.random() < 0.5, "shuffle": rngt.random() < 0.5, "share_dir": rngt.random() < 0.5, "seed": rngt.randrange(1 << 30),
+               "conc": rngt.choice([0, 1, 3]), "odd_names": rngt.random() < 0.3}
 
 
 # ----------------------------------------------------------------------------- worker side
@@ -272,6 +273,8 @@ def setup_worker():
             docs = list(documents)
             k = len(ctl.calls)
             ctl.calls.append(docs)
+            for _ in range(getattr(ctl, "yields", 0)):
+                await asyncio.sleep(0)  # the model call takes a while: other requests of the same loop run meanwhile
             if not (ctl.auto or ctl.instant_now()):
                 fut = asyncio.get_running_loop().create_future()
                 ctl.gates[k] = fut
@@ -446,7 +449,7 @@ def run_twoidx(case):
     ctl = Ctl(rng, 0)
     ctl.auto = True
     _CUR[0] = ctl
-    models = ["mA", "mB", "mC"][: case["nidx"]]
+    models = (["mA", "mB", "mC"] if not case.get("odd_names") else ["m", "m:B", "m:B:x"])[: case["nidx"]]
     texts = case["texts"]
     sample = {"family": "twoidx", "cache": case["cache"], "models": models, "texts": texts, "use_batching": case["batching"], "same_cache_dir": bool(shared_dir)}
     base = {"nontrivial": True, "sample": sample, "cfg": case["cache"], "mode": "twoidx"}
@@ -471,6 +474,22 @@ def run_twoidx(case):
 
         async def go():
             nonlocal problem
+            if case.get("conc"):
+                # first the indexes work at the same time: every text goes to all of them while the others' model calls are in flight
+                ctl.yields = case["conc"]
+                for t in dict.fromkeys(texts):
+                    order = list(models)
+                    rng.shuffle(order)
+                    got = await asyncio.wait_for(asyncio.gather(*[idxs[m_]._get_embeddings([t]) for m_ in order]), 30)
+                    obs["requests"] += len(order)
+                    for m_, g_ in zip(order, got):
+                        obs["vectors_compared"] += 1
+                        if _as_lists(g_) != [fm(m_, t)]:
+                            other = next((o for o in models if o != m_ and _as_lists(g_) == [fm(o, t)]), None)
+                            problem = ("vector-of-another-index-model" if other else "wrong-vector", {"index_model": m_, "text": t, "got_is_vector_of_model": other, "phase": "concurrent"})
+                            return
+                ctl.yields = 0
+                obs["two_index_concurrent_phases"] = 1
             plan = [(m, t) for t in texts for m in models]
             if case.get("shuffle"):
                 rng.shuffle(plan)
@@ -506,7 +525,7 @@ def run_twoidx(case):
         for d in tmpdirs:
             shutil.rmtree(d, ignore_errors=True)
         _CUR[0] = None
-    key = repr(("twoidx", case["cache"], models, texts, case["batching"], bool(shared_dir), bool(case.get("shuffle"))))
+    key = repr(("twoidx", case["cache"], models, texts, case["batching"], bool(shared_dir), bool(case.get("shuffle")), case.get("conc"), bool(case.get("odd_names"))))
     if problem:
         return dict(base, key=key, verdict="violated", observed=obs, mech=problem[0], witness=dict(problem[1], config=sample))
     return dict(base, key=key, verdict="held", observed=obs)
